@@ -146,6 +146,8 @@ class Interp:
             return self.uf("box", v)
         if v is None:
             return z3.Const("None", U)
+        if v is Ellipsis:
+            return z3.Const("Ellipsis", U)
         if isinstance(v, (bool, int, float)):
             return self.uf("box", self.to_z3_any(v))
         if isinstance(v, str):
@@ -923,12 +925,27 @@ class Interp:
     # subscripts -------------------------------------------------------------------
     def e_Subscript(self, node, env, module):
         v = self.eval(node.value, env, module)
+        from .models_jax import AtProxy as _AP
+
+        if isinstance(node.slice, ast.Slice) and isinstance(v, _AP):
+            idx = self.e_Slice(node.slice, env, module)
+            arr = v.arr
+            return PyObj("at_index",
+                         set=PyFn(lambda ip2, val: ip2.uf("at_set", arr, ip2.to_U(idx), ip2.to_z3_any(val)), "at.set"),
+                         add=PyFn(lambda ip2, val: ip2.uf("at_add", arr, ip2.to_U(idx), ip2.to_z3_any(val)), "at.add"))
         if isinstance(node.slice, ast.Slice):
             lo = self.eval(node.slice.lower, env, module) if node.slice.lower else None
             hi = self.eval(node.slice.upper, env, module) if node.slice.upper else None
             st = self.eval(node.slice.step, env, module) if node.slice.step else None
             return self.getslice(v, lo, hi, st)
         idx = self.eval(node.slice, env, module)
+        from .models_jax import AtProxy
+
+        if isinstance(v, AtProxy):
+            arr = v.arr
+            return PyObj("at_index",
+                         set=PyFn(lambda ip2, val: ip2.uf("at_set", arr, ip2.to_U(idx), ip2.to_z3_any(val)), "at.set"),
+                         add=PyFn(lambda ip2, val: ip2.uf("at_add", arr, ip2.to_U(idx), ip2.to_z3_any(val)), "at.add"))
         return self.getitem(v, idx, node)
 
     def e_Slice(self, node, env, module):
